@@ -311,8 +311,14 @@ class FnA:
                 return ("ovf", base)
             if self.is_closure and base == ("param", 1) and (e.get("adt") or "").startswith("closure:"):
                 return ("upvar", e["i"])
+            if base[0] == "as" and base[2] in ("Some", "Ok") and (e.get("adt") or "").endswith("ControlFlow"):
+                return ("field", base, "core::option::Option" if base[2] == "Some" else "core::result::Result", e["n"])
             return ("field", base, e.get("adt"), e["n"])
         if k == "downcast":
+            t = try_branch_subject(base)
+            if t is not None and e["n"] == "Continue":
+                # `x?`: the Continue payload of Try::branch(x) is the Some / Ok payload of x (see _project field below)
+                return ("as", t[0], t[1])
             return ("as", base, e["n"])
         if k == "index":
             return ("index", base, self.val_local(e["l"], point, depth + 1))
@@ -528,6 +534,18 @@ class FnA:
                     for (adt, field) in self.eff.R(f.id):
                         extra.add(("f", adt, field))
         return out | extra
+
+
+def try_branch_subject(e):
+    """If e is `Try::branch(x)` of an Option / Result (what `x?` lowers to): (x, payload variant), else None."""
+    if isinstance(e, tuple) and e and e[0] == "old":
+        e = e[1]
+    if isinstance(e, tuple) and e and e[0] == "call" and e[1].endswith("::branch") and len(e[2]) == 1:
+        if "option::Option" in e[1]:
+            return (e[2][0], "Some")
+        if "result::Result" in e[1]:
+            return (e[2][0], "Ok")
+    return None
 
 
 def _snapshot_rooted(e):
